@@ -89,8 +89,8 @@ PROPS["C09"] = dict(
 PROPS["C04"] = dict(
     level="model_checking",
     technique="explicit-state BFS over checker configuration histories with a lock-step reference model; probe battery x clocks in every state on the real code",
-    level_text=("all 324 reachable states of the claim-configuration machine (closure of the frontier under 21 operations incl. "
-                "invalid calls) are reached on the real checker by replaying the history that reaches them; every transition's "
+    level_text=("all 1 280 reachable states of the claim-configuration machine (closure of the frontier under 26 operations incl. "
+                "invalid calls; leeways -100, -1, 0, 5, 2^40; three expected values per string claim incl. a non-ASCII one) are reached on the real checker by replaying the history that reaches them; every transition's "
                 "return code and observers are compared with the model, and in every state a battery of tokens around each "
                 "boundary, each JSON type and each string relation is verified at three clock values, unsigned and HS256-signed, "
                 "and compared with ref_claims in both directions"),
@@ -100,8 +100,8 @@ PROPS["C04"] = dict(
           "{unsigned/key-less, HS256/keyed}; evaluations = jwt_checker_verify calls compared with the model; a case is non-trivial "
           "when it ran a battery on a replayed history (each is distinct by descriptor)"),
     runs=lambda tier: [dict(harness="claims", args=["--param", 0])] + ([dict(harness="claims", args=["--param", 1])] if tier == "thorough" else []),
-    bound=dict(quick="all 324 states / 6804 transitions (frontier closed); reduced battery", thorough="all states/transitions; full pair battery; both providers"),
-    assumptions=["leeways are drawn from {-1, 0, 5, 2^40} and expected strings from {a, b}: other values are not enumerated",
+    bound=dict(quick="all 1 280 states / 33 280 transitions (frontier closed); reduced battery", thorough="all states/transitions; full pair battery; both providers"),
+    assumptions=["leeways are drawn from {-100, -1, 0, 5, 2^40} and expected strings from three values: other values are not enumerated",
                  "payloads that jansson itself refuses (escaped NUL) carry no acceptance demand"],
     budget_s=dict(quick=600, thorough=1800),
 )
@@ -325,7 +325,7 @@ PROPS["C05"] = dict(
     technique="exhaustive enumeration of key/algorithm x (signing provider, verifying provider) x a bounded-exhaustive JSON tree family on the real builder and checker; ECDSA nonces owned by a seeded DRBG",
     level_text=("29 (key, algorithm) pairs (oct 32-200 bytes, RSA 2048-4096 incl. e=3, 33-bit e and RSA-PSS keys, P-256/384/521 incl. "
                 "leading-zero keys, secp256k1, Ed25519, Ed448) x all four provider pairs x every JSON tree of depth <= 2 / width <= 2 "
-                "over 17 leaves (integer extremes, reals, empty/UTF-8/escaped strings, booleans, null, empty containers) plus 4 Ki / 64 Ki "
+                "over 23 leaves (integer extremes, reals incl. ones needing 17 significant digits and the smallest denormal, empty/UTF-8/escaped strings, booleans, null, empty containers) plus 4 Ki / 64 Ki "
                 "strings, as header and claim values, under all eight iat/nbf/exp option combinations: the token must verify, the "
                 "reference must find the signature valid and of RFC 7518 width, and the header and claims a checker callback reads "
                 "must be json_equal to the builder input plus alg/typ/iat/nbf/exp.  With libcrypto's RNG replaced by a counter DRBG, "
@@ -345,9 +345,9 @@ PROPS["C05"] = dict(
 PROPS["C10"] = dict(
     level="model_checking",
     technique="explicit-state BFS over builder call histories (dedup on the canonical builder state) on the real builder, ref_builder model advanced in lock-step, every token decoded by an independent reference",
-    level_text=("breadth-first search over histories of 30 builder operations (header/claim set and delete incl. iat/nbf/exp/alg/typ "
-                "names, enable_iat, time_offset with negative/zero/positive and invalid arguments, setkey none/oct/ES256/public, four "
-                "callbacks, generate at two clock values) to depth 4 (quick) / until the frontier closes (thorough: all 12 288 reachable builder states); every history is replayed on a fresh real "
+    level_text=("breadth-first search over histories of 31 builder operations (header/claim set and delete incl. iat/nbf/exp/alg/typ "
+                "names, enable_iat, time_offset with negative/zero/positive and invalid arguments, setkey none/oct/ES256/public, five "
+                "callbacks incl. one that withdraws key and alg, generate at two clock values) to depth 4 (quick) / until the frontier closes (thorough: all 15 360 reachable builder states); every history is replayed on a fresh real "
                 "builder; every token is split into exactly three canonical unpadded base64url parts, header and payload are compared "
                 "(json_equal) with what ref_builder computes (alg forced, typ defaulted on signed tokens only, iat/nbf/exp "
                 "overriding, callback edits in that token only), the signature is checked by ref_crypto, and the builder's "
@@ -371,7 +371,7 @@ PROPS["C18"] = dict(
                 "run generate + verify(own) + verify(bad) + verify(good) for HS256, EdDSA, RS256 and ES256 on both providers; the "
                 "threads are real pthreads serialised by engine/sched.c, with a scheduling point at every allocator call of libjwt "
                 "and jansson and every time() call (about 110 points per thread); every schedule with at most 1 preemption (quick) / "
-                "2 preemptions (thorough, HS256 and EdDSA) is executed and each thread's token and verdicts must equal its "
+                "2 preemptions (thorough, all four algorithms with 2 threads) is executed and each thread's token and verdicts must equal its "
                 "sequential run.  Because the scheduler's hand-offs are happens-before edges, data races are looked for "
                 "separately: the same bodies free-running on 8 threads under ThreadSanitizer"),
     level_note="scheduling points sit at allocator and clock seams only: a static touched strictly between two adjacent points is visible to the TSan pass only; weak-memory effects are not modelled",
@@ -381,7 +381,7 @@ PROPS["C18"] = dict(
     runs=lambda tier: [dict(harness="conc", args=["--param", 0], case_timeout=900), dict(harness="conc", args=["--param", 1], case_timeout=900),
                        dict(harness="conc", variant="tsan", args=["--param", 8], env=_TSAN_ENV, shards=2),
                        dict(harness="conc", variant="tsan", args=["--param", 9], env=_TSAN_ENV, shards=2)],
-    bound=dict(quick="all schedules with <= 1 preemption, 2 threads, 4 algorithms x 2 providers", thorough="<= 2 preemptions for HS256 and EdDSA (2 threads); <= 1 for 3 threads and RS256/ES256"),
+    bound=dict(quick="all schedules with <= 1 preemption, 2 threads, 4 algorithms x 2 providers", thorough="<= 2 preemptions for all four algorithms (2 threads); <= 1 for 3 threads (HS256)"),
     assumptions=["TSan cannot see races inside the uninstrumented OpenSSL/GnuTLS/jansson libraries"],
     budget_s=dict(quick=900, thorough=3300),
 )
